@@ -67,7 +67,7 @@ def crash_points(ctx, cfg, cov):
     if capped or ms == 0:
         cov.cap("BFS over crash points cut at %d states per configuration; deeper crash points only along spine "
                 "histories" % ms if ms else "real-BO family: crash points only along spine histories")
-    for pol in SPINE_POLICIES[:cfg.get("spines", 0)]:
+    for pol in cfg.get("spine_policies") or SPINE_POLICIES[:cfg.get("spines", 0)]:
         w = ctx.build()
         evs, _ = tw.drain(w, pol, cfg.get("spine_len", 40))
         for k in range(1, len(evs) + 1):
@@ -293,8 +293,10 @@ def task(cfg):
         for key, what, rp in check_point(ctx, cfg, hist, w, cov, found):
             viols.append(Violation(PROP, key, what, rp))
         cov.extra["max_crash_depth"] = max(cov.extra.get("max_crash_depth", 0), len(hist))
-    cov.extra["suggestions_equal_only_up_to_1e-5"] = tw.NEAR[0]
+    cov.extra["suggestions_equal_only_up_to_1e-11"] = tw.NEAR[0]
     tw.NEAR[0] = 0
+    cov.extra["max_accepted_relative_deviation"] = tw.MAXDEV[0]
+    tw.MAXDEV[0] = 0.0
     if ctx.cache.get("__h_reduced__"):
         cov.extra["crash_points_with_reduced_h"] = ctx.cache["__h_reduced__"]
         cov.cap("continuation depth reduced by one or more at crash points whose branching b gives b^h > %d paths"
@@ -342,8 +344,8 @@ def run(tier, seed):
         "clone_from_state is called on the searcher of a freshly constructed scheduler (same constructor arguments), "
         "configured like the original; the clone replaces the searcher of a scheduler brought to the crash point by "
         "replay (dill for the real-BO family)",
-        "float hyperparameters of suggestions are compared with relative tolerance 1e-5 (GP get_params/set_params is exact "
-        "only up to an ulp; counted in suggestions_equal_only_up_to_1e-5), everything else exactly",
+        "float hyperparameters of suggestions are compared with relative tolerance 1e-11 (GP get_params/set_params is exact "
+        "only up to an ulp; counted in suggestions_equal_only_up_to_1e-11), everything else exactly",
         "debug_log=True variants of the C03-C05 worlds set searcher._debug_log = DebugLogPrinter() after construction",
     ]
     return res
